@@ -141,6 +141,9 @@ class kFlowDecompCycles(walkmodel.AbstractWalkModelDiGraph):
         self.weight_type = weight_type
 
 
+        if k is not None and (not isinstance(k, int) or isinstance(k, bool) or k <= 0):
+            utils.logger.error(f"{__name__}: k must be a positive integer, not {k}")
+            raise ValueError(f"k must be a positive integer, not {k}")
         self.k = k
         self.optimization_options = dict(optimization_options or {})        
 
